@@ -1,5 +1,7 @@
 import NfcVerif.Lemmas.Sense
 import NfcVerif.Lemmas.Connect
+import NfcVerif.Lemmas.ConnectErr
+import NfcVerif.Lemmas.ConnectPrompt
 /-!
 # C18 - connect() and sense() honour their documented contract
 
@@ -62,11 +64,14 @@ theorem release_iff_connect_true (o : Opts) (env : List Ans) (ts : List Bool) (r
   of r and it returned a false value;
 * otherwise the (true) value on-release of role r returned - `True` for the default on-release;
 * False: exactly for IOError, UnsupportedTargetError, KeyboardInterrupt.
-PARTIAL: exceptions of other classes leave connect() (`.raised`): the SystemExit of the link loop
-(F21), a CommunicationError raised inside listen() (F30) - see the two counter-examples - and the
-argument errors TypeError (on-startup returned a non-iterable) / ValueError (a single target with
-invalid attributes, a LocalTarget of unknown technology).  Nothing is claimed about which of them
-occur, only that they are not among the three caught classes. -/
+PARTIAL only because of the last case: an exception leaves connect() (`.raised`) exactly in three
+situations, and nothing else can (after the repair of F30 a CommunicationError inside listen() is
+"no target this round"):
+* SystemExit, and then the last event is the link loop `llc.run` answering SystemExit (F21, open);
+* TypeError, and then the rdwr on-startup returned a true value that is not iterable;
+* ValueError, and then an argument error: the rdwr option has a single target (whose own error is
+  raised, as documented for sense()), an element that is not a RemoteTarget, or the card option has
+  a LocalTarget of unknown technology. -/
 theorem connect_return_table_partial (o : Opts) (env : List Ans) (ts : List Bool) :
     ∃ q, mon (connect o env ts).2.log = some q ∧
       (match (connect o env ts).1 with
@@ -74,13 +79,33 @@ theorem connect_return_table_partial (o : Opts) (env : List Ans) (ts : List Bool
        | .ret (.obj r) => q = .finObj r
        | .ret (.val r v) => v.truthy = true ∧ q = .finRel r v.code
        | .caught e => isCaught e = true
-       | .raised e => isCaught e = false) :=
-  connect_spec o env ts
+       | .raised e =>
+         (e = .type_ ∧ NonIterableStartup o) ∨ (e = .value ∧ OptsV o) ∨
+         (e = .systemExit ∧ (connect o env ts).2.log.getLast? = some (.call .llcRun .sysExit))) := by
+  obtain ⟨q, hq, h⟩ := connect_spec o env ts
+  refine ⟨q, hq, ?_⟩
+  cases hc : (connect o env ts).1 with
+  | ret v => rw [hc] at h; cases v <;> exact h
+  | caught e => rw [hc] at h; exact h
+  | raised e => exact connect_raised o env ts e hc
+
+/-- The full table: when the option record has no argument error and the link loop does not raise
+SystemExit during the run, connect() returns - None, False, the object or on-release's value. -/
+theorem connect_return_table (o : Opts) (env : List Ans) (ts : List Bool)
+    (h1 : ¬ NonIterableStartup o) (h2 : ¬ OptsV o)
+    (h3 : (connect o env ts).2.log.getLast? ≠ some (.call .llcRun .sysExit)) :
+    ∀ e, (connect o env ts).1 ≠ .raised e := by
+  intro e he
+  rcases connect_raised o env ts e he with ⟨_, h⟩ | ⟨_, h⟩ | ⟨_, h⟩
+  · exact h1 h
+  · exact h2 h
+  · exact h3 h
 
 /-- the full statement ("connect() never raises") is false on the current code -/
 def ConnectNeverRaises : Prop := ∀ o env ts e, (connect o env ts).1 ≠ .raised e
 
 def llcpOnly : Opts := ⟨none, some ⟨none, .absent, .absent, .initiator⟩, none⟩
+def good' : Ans := .found ⟨[0x44, 0x00], [], false, 20⟩
 def cardDep : Opts := ⟨none, none, some ⟨some (.proper, 0), .dep, .absent, .absent, .absent⟩⟩
 
 /-- F21: SystemExit from the link loop leaves connect() -/
@@ -88,9 +113,8 @@ theorem connect_systemexit_counterexample : ¬ ConnectNeverRaises := by
   intro h
   exact h llcpOnly [.found default, .sysExit] [false, false] .systemExit (by decide)
 
-/-- F30: a CommunicationError raised inside listen() leaves connect() -/
-theorem connect_listen_error_counterexample :
-    (connect cardDep [.nothing, .listenErr] [false, false]).1 = .raised .brokenLink := by decide
+/-- F30 repaired: a CommunicationError raised inside listen() no longer leaves connect() -/
+example : (connect cardDep [.nothing, .listenErr] [false, true]).1 = .ret .none := by decide
 
 /-- connect() ends: the main loop needs at most one round per false answer of terminate() plus one,
 for every surviving option set, script and stream (the model's fuel `ts.length + 1` is never used up). -/
@@ -102,21 +126,19 @@ theorem connect_total (o : Opts) (env : List Ans) (ts : List Bool) (l : Live) (s
   obtain ⟨r, s', hm, _⟩ := mainLoop_spec l (ts.length + 1) ts s (.su k) (by omega) hk rfl
   simp [hm]
 
-/-- PARTIAL (promptness): once `terminate()` answers true at the head of the loop connect() returns
-None with no further event, and no step hands back more terminate answers than it was given (so
-every false answer is used at most once).  NOT proved: the bound on the events between a true answer
-given INSIDE a step (presence loop, link loop, card loop) and the end - at most 24 events, checked by
-the oracle on every run (`not-prompt-after-terminate`). -/
-theorem connect_ends_after_terminate_partial (l : Live) (k : Nat) (rest : List Bool) (s : St) :
-    mainLoop l (k + 1) [] s = some (.ok .none, s.emit (.term true)) ∧
-    mainLoop l (k + 1) (true :: rest) s = some (.ok .none, s.emit (.term true)) ∧
-    (∀ o ts q, mon s.log = some q → q.idleLike = true → (rdwrStep o ts s).2.2.length ≤ ts.length) ∧
-    (∀ o ts q, mon s.log = some q → q.idleLike = true → (llcpStep o ts s).2.2.length ≤ ts.length) ∧
-    (∀ o ts q, mon s.log = some q → q.idleLike = true → (cardStep o ts s).2.2.length ≤ ts.length) := by
-  refine ⟨rfl, rfl, ?_, ?_, ?_⟩
-  · intro o ts q h1 h2; obtain ⟨_, _, _, h⟩ := rdwrStep_spec o ts s q h1 h2; exact h
-  · intro o ts q h1 h2; obtain ⟨_, _, _, h⟩ := llcpStep_spec o ts s q h1 h2; exact h
-  · intro o ts q h1 h2; obtain ⟨_, _, _, h⟩ := cardStep_spec o ts s q h1 h2; exact h
+/-- connect() ends promptly once `terminate()` is true: for every terminate predicate that stays
+true once it was true (`Mono ts`; the exhausted stream answers true), wherever the first true answer
+is given - at the head of the loop, in the presence loop, inside `llc.run`, in the card loop - at
+most 21 further events (callbacks, driver/collaborator calls, terminate polls, sleeps) happen before
+connect() returns.  `after log = none`: terminate() never answered true (connect() ended for
+another reason). -/
+theorem connect_ends_after_terminate (o : Opts) (env : List Ans) (ts : List Bool) (hm : Mono ts) :
+    after (connect o env ts).2.log = none ∨
+    ∃ n, n ≤ 21 ∧ after (connect o env ts).2.log = some n :=
+  connect_prompt o env ts hm
+
+example : Mono [false, false, true, true] := by simp [Mono, AllTrue]
+example : after (connect cardDep [.nothing, good', good', good', good'] [false, false, true]).2.log = some 1 := by decide
 
 /-! ## sense() / listen() / exchange() -/
 
